@@ -95,17 +95,23 @@ HeaderWellFormed(c) ==
 
 \* ---------------------------------------------------------------- judging what the real code did
 (* observation o = [runs |-> sequence of run records], one per request sent for the case (same header pair):
-     run = [path, status, coding, hdr, decodes, same]
-     path     "unary" | "producer"            (producer = continuation turn, pre-compressed code path)
-     status   HTTP status
+     run = [path, status, refstatus, coding, hdr, decodes, same]
+     path     which kind of Arrow response the headers were sent for.  The negotiation is a property of the response,
+              whatever produced it:
+                "unary" | "unary_small" (a few bytes of result) | "producer" (continuation turn: the pre-compressed
+                code path) | "init" (producer /init) | "exch_init" | "exchange" (exchange turn) | "rpc_error" (200 with
+                the error marker) | "not_found" (404) | "bad_request" (400) | "client" (a request issued by the
+                repository's own Python client through http_connect)
+     status   HTTP status;  refstatus = the status of the same request sent without any accept header
      coding   "z" | "g" | "none" | "other"    what the announcement header(s) name ("other": any other token,
                                               or two headers that disagree)
      hdr      "none" | "std" | "vgi" | "both" which announcement header(s) were present
      decodes  the body decodes under the announced coding (TRUE for no coding)
-     same     the decoded body equals the reference (uncompressed) body of the same request
+     same     the decoded body equals the reference (uncompressed) body of the same request (state tokens, which are
+              re-sealed per response, excepted);  for "client": the values the client returned equal the reference
    A failing clause is reported as "<Clause>/<path>".                                                         *)
 RunFails(e, r) ==
-       {"Status200"     : x \in {1} \cap (IF r.status = 200 THEN {} ELSE {1})}
+       {"StatusUnchanged": x \in {1} \cap (IF r.status = r.refstatus THEN {} ELSE {1})}
   \cup {"Coding"        : x \in {1} \cap (IF r.coding = e.coding THEN {} ELSE {1})}
   \cup {"Header"        : x \in {1} \cap (IF r.hdr \in Range(e.hdr) THEN {} ELSE {1})}
   \cup {"BodyDecodes"   : x \in {1} \cap (IF r.decodes THEN {} ELSE {1})}
